@@ -221,6 +221,7 @@ Definition explain_v (pinned : quirks) (c : vcase) :=
 
 (** ** group "etcd": histories of user-set updates interleaved with requests *)
 Inductive estep :=
+| SReload
 | SUpdate (l : list ecred)
 | SReq (r : request) (ob : observed) (expect : bool).
 
@@ -236,12 +237,13 @@ Definition eoracle (c : ecase) : oracle :=
                t_jmac := []; t_ptime := []; t_puint := []; t_sha := []; t_mac := [] |}.
 
 Definition eops (c : ecase) : list eop :=
-  map (fun s => match s with SUpdate l => EUpdate l | SReq r _ _ => EReq r end) (ec_steps c).
+  map (fun s => match s with SUpdate l => EUpdate l | SReq r _ _ => EReq r | SReload => EReload end) (ec_steps c).
 
 Fixpoint ereqs (l : list estep) : list (request * observed * bool) :=
   match l with
   | [] => []
   | SUpdate _ :: t => ereqs t
+  | SReload :: t => ereqs t
   | SReq r ob e :: t => (r, ob, e) :: ereqs t
   end.
 
@@ -266,11 +268,11 @@ Definition check_etcd (pinned : quirks) (c : ecase) : result :=
   let mp := etcd_run pinned o (ec_alive c) users0 (eops c) in
   let mi := etcd_run ideal o (ec_alive c) users0 (eops c) in
   let rs := ereqs (ec_steps c) in
-  let ok := eguard c && negb (ec_stuck c) in
-  (ok && all2 (fun m x => outcome_matches m (snd (fst x))) mp rs,
+  let ok := eguard c in
+  (ok && negb (ec_stuck c) && all2 (fun m x => outcome_matches m (snd (fst x))) mp rs,
    ok && all2 (fun m x => let ob := snd (fst x) in
                           ob_wellformed ob && Bool.eqb (ob_accepted ob) (snd x) && Bool.eqb (ob_accepted ob) (is_pass m)) mi rs,
-   match rs with [] => 0%N | _ => (1 + (if has_empty_update (ec_steps c) then 1 else 0) + (if ec_alive c then 0 else 2))%N end,
+   match rs with [] => 0%N | _ => (1 + (if has_empty_update (ec_steps c) then 1 else 0) + (if ec_alive c then 0 else 2) + (if existsb (fun s => match s with SReload => true | _ => false end) (ec_steps c) then 4 else 0))%N end,
    0%N).
 
 Definition explain_etcd (pinned : quirks) (c : ecase) :=
